@@ -31,20 +31,45 @@ Definition kapp (k : nat) (o : osmv) (l : list val) : osmv :=
 Lemma ktype_rt_ok : forall k, rt_ok (ktype k) = true.
 Proof. intros k. do 6 (destruct k as [|k]; [vm_compute; reflexivity|]). vm_compute. reflexivity. Qed.
 
-(* the struct of every element kind starts with the "type" shim and has no other "type" key *)
+(* the struct of every element kind starts with the "type" shim and has no other key that
+   resolves (exactly or by case folding) to "type" *)
+Definition no_type_key (ns : list string) : bool :=
+  forallb (fun m => match resolve ["type"] m with None => true | Some _ => false end) ns.
+
 Lemma ktype_shape : forall k, exists g fr,
-  ktype k = TStruct (Field g "type" false (TShim (kname k)) :: fr) /\ ~ In "type" (names fr).
+  ktype k = TStruct (Field g "type" false (TShim (kname k)) :: fr) /\ no_type_key (names fr) = true.
 Proof.
-  intros k. do 6 (destruct k as [|k]; [eexists; eexists; split; [reflexivity|vm_compute; intuition discriminate]|]).
-  eexists; eexists; split; [reflexivity|vm_compute; intuition discriminate].
+  intros k. do 6 (destruct k as [|k]; [eexists; eexists; split; [reflexivity|vm_compute; reflexivity]|]).
+  eexists; eexists; split; [reflexivity|vm_compute; reflexivity].
 Qed.
 
-Lemma find_type_obj : forall kv nm, lookup "type" kv = Some (JStr nm) -> nm <> "" ->
+Lemma lookup_f_none : forall ns n kv,
+  (forall k, In k (keys kv) -> resolve ns k = None) -> lookup_f ns n kv = None.
+Proof.
+  intros ns n kv. induction kv as [|[k j] r IH]; intros H; [reflexivity|].
+  cbn [lookup_f]. rewrite IH by (intros k' Hk'; apply H; right; exact Hk').
+  rewrite (H k) by (left; reflexivity). reflexivity.
+Qed.
+
+Lemma find_type_obj : forall kv nm, lookup_f ["type"] "type" kv = Some (JStr nm) -> nm <> "" ->
   find_type (JObj kv) = Ok nm.
 Proof.
   intros kv nm H Hne. unfold find_type, t_typeStruct, f_typeStruct. rewrite dec_struct.
-  cbn [dec_fields dec_field]. rewrite H. simpl.
+  cbn [dec_fields dec_field names]. rewrite H. simpl.
   destruct (String.eqb nm "") eqn:E; [apply String.eqb_eq in E; contradiction|reflexivity].
+Qed.
+
+Lemma type_first : forall j rest, no_type_key (keys rest) = true ->
+  lookup_f ["type"] "type" (("type", j) :: rest) = Some j.
+Proof.
+  intros j rest H. cbn [lookup_f]. rewrite lookup_f_none; [reflexivity|].
+  intros k Hk. unfold no_type_key in H. rewrite forallb_forall in H. specialize (H k Hk).
+  destruct (resolve ["type"] k); [discriminate H|reflexivity].
+Qed.
+
+Lemma no_type_key_sub : forall a b, (forall k, In k a -> In k b) -> no_type_key b = true -> no_type_key a = true.
+Proof.
+  intros a b Hs H. unfold no_type_key in *. rewrite forallb_forall in *. intros k Hk. apply H, Hs, Hk.
 Qed.
 
 Section Osm.
@@ -57,8 +82,8 @@ Proof.
   apply wf_struct_inv in H. destruct H as [vs [-> Hw]].
   destruct vs as [|x vr]; [discriminate Hw|].
   rewrite enc_struct. apply find_type_obj.
-  - cbn [enc_fields andb lookup]. rewrite lookup_notin; [simpl; reflexivity|].
-    intro HI. apply Hn. eapply keys_enc_fields. exact HI.
+  - cbn [enc_fields andb]. apply type_first.
+    eapply no_type_key_sub; [|exact Hn]. intros m Hm. eapply keys_enc_fields. exact Hm.
   - do 6 (destruct k as [|k]; [discriminate|]). discriminate.
 Qed.
 
@@ -144,14 +169,17 @@ Lemma header_rt : forall a b c d e (els : list json),
   = Ok (VStruct [VJson (if String.eqb a "" then JNull else JStr a); VStr b; VStr c; VStr d; VStr e;
                  VList (map VJson els)]).
 Proof.
-  intros a b c d e els. rewrite enc_struct, dec_struct. unfold f_OSM_MarshalJSON, f_OSM_UnmarshalJSON.
+  intros a b c d e els. rewrite enc_struct, dec_struct.
+  rewrite dec_fields_exact.
+  2:{ intros k Hk. apply (keys_enc_fields mo) in Hk. vm_compute in Hk |- *. tauto. }
+  unfold f_OSM_MarshalJSON, f_OSM_UnmarshalJSON.
   cbn [enc_fields is_empty andb].
   assert (Hm : map (fun v : val => match v with VJson j => j | _ => JNull end) (map VJson els) = els)
     by (rewrite map_map; simpl; apply map_id).
   destruct (String.eqb a "") eqn:Ea; destruct (String.eqb b "") eqn:Eb; destruct (String.eqb c "") eqn:Ec;
     destruct (String.eqb d "") eqn:Ed; destruct (String.eqb e "") eqn:Ee;
     rewrite ?String.eqb_eq in *; subst;
-    cbn [enc dec_fields dec_field lookup String.eqb Ascii.eqb Bool.eqb rbind rmap zero dec];
+    cbn [enc dec_fields_x dec_field_x lookup String.eqb Ascii.eqb Bool.eqb rbind rmap zero dec];
     rewrite ?Hm; reflexivity.
 Qed.
 
@@ -243,8 +271,13 @@ Proof.
     repeat split; congruence.
 Qed.
 
+(* the document entry that the decoder uses for header field n: the last key that is n
+   exactly or up to ASCII case *)
+Definition hdr_names : list string := names f_OSM_UnmarshalJSON.
+Definition hlookup (n : string) (kv : list (string * json)) : option json := lookup_f hdr_names n kv.
+
 Definition str_field (kv : list (string * json)) (n : string) (s : string) : Prop :=
-  match lookup n kv with
+  match hlookup n kv with
   | None | Some JNull => s = ""
   | Some (JStr x) => s = x
   | Some _ => False
@@ -254,15 +287,15 @@ Lemma rbind_ok : forall {A B} (r : res A) (f : A -> res B) b,
   rbind r f = Ok b -> exists a, r = Ok a /\ f a = Ok b.
 Proof. intros A B r f b H. destruct r; try discriminate H. exists a. split; [reflexivity|exact H]. Qed.
 
-Lemma str_field_dec : forall kv n v, dec_field kv n TStr = Ok v -> exists s, v = VStr s /\ str_field kv n s.
+Lemma str_field_dec : forall kv n v, dec_field hdr_names kv n TStr = Ok v -> exists s, v = VStr s /\ str_field kv n s.
 Proof.
-  intros kv n v H. unfold dec_field, str_field in *. destruct (lookup n kv) as [j|].
+  intros kv n v H. unfold dec_field, str_field, hlookup in *. destruct (lookup_f hdr_names n kv) as [j|].
   - destruct j; simpl in H; try discriminate H; injection H as <-; eexists; split; reflexivity.
   - injection H as <-. exists "". split; reflexivity.
 Qed.
 
 Definition version_says (kv : list (string * json)) (s : string) : Prop :=
-  match lookup "version" kv with
+  match hlookup "version" kv with
   | None | Some JNull => s = ""                                (* absent stays empty *)
   | Some (JStr x) => s = x                                     (* version as string *)
   | Some (JNum m k) => s = fmt_g m k                           (* version as number *)
@@ -277,6 +310,7 @@ Theorem header_of_document : forall kv o, osm_unmarshal (JObj kv) = Ok o ->
   /\ str_field kv "attribution" (o_attribution o) /\ str_field kv "license" (o_license o).
 Proof.
   intros kv o H. unfold osm_unmarshal, unmarshal_with in H. rewrite dec_struct in H.
+  change (names f_OSM_UnmarshalJSON) with hdr_names in H.
   unfold f_OSM_UnmarshalJSON, rmap in H. cbn [dec_fields] in H.
   apply rbind_ok in H. destruct H as [s0 [H H0]].
   apply rbind_ok in H. destruct H as [l0 [H Hs0]]. injection Hs0 as <-.
@@ -294,13 +328,13 @@ Proof.
   injection H as <-.
   destruct (str_field_dec _ _ _ Hg) as [sg [-> Fg]]. destruct (str_field_dec _ _ _ Hc) as [sc [-> Fc]].
   destruct (str_field_dec _ _ _ Ha) as [sa [-> Fa]]. destruct (str_field_dec _ _ _ Hl) as [sl [-> Fl]].
-  assert (Ev : vv = VJson (match lookup "version" kv with Some j => j | None => JNull end)).
-  { unfold dec_field in Hv. destruct (lookup "version" kv); simpl in Hv; injection Hv as <-; reflexivity. }
+  assert (Ev : vv = VJson (match hlookup "version" kv with Some j => j | None => JNull end)).
+  { unfold dec_field, hlookup in *. destruct (lookup_f hdr_names "version" kv); simpl in Hv; injection Hv as <-; reflexivity. }
   subst vv. destruct ve; try discriminate H0.
   apply rbind_ok in H0. destruct H0 as [vs [Hvs H0]].
   apply add_elements_header in H0. cbn in H0. destruct H0 as [B1 [B2 [B3 [B4 B5]]]].
   rewrite B1, B2, B3, B4, B5. repeat split; try assumption.
-  unfold version_says. destruct (lookup "version" kv) as [j|]; [|injection Hvs as <-; reflexivity].
+  unfold version_says. destruct (hlookup "version" kv) as [j|]; [|injection Hvs as <-; reflexivity].
   destruct j; simpl in Hvs; try discriminate Hvs; try (injection Hvs as <-; reflexivity).
   destruct b; injection Hvs as <-; reflexivity.
 Qed.
